@@ -65,6 +65,18 @@ def t1_shard(arg):
 
     def body(c):
         text, std, g = semgen.program(c, quarantine=())
+        if c.chance(0.15):
+            # all of C's white-space characters (C99 6.4p3): form feed and vertical
+            # tab in place of some blanks, outside directive lines (gcc rejects them there)
+            lines = []
+            for ln in text.split("\n"):
+                if not ln.lstrip().startswith("#") and " " in ln and c.chance(0.2):
+                    i = [k for k, ch in enumerate(ln) if ch == " "]
+                    k = c.choice(i)
+                    ln = ln[:k] + c.choice(["\f", "\v", " \f ", "\v\f"]) + ln[k + 1 :]
+                lines.append(ln)
+            text = "\n".join(lines)
+            st.classes["programs_with_ff_or_vt"] += 1
         p = os.path.join(d, "p%d.c" % len(batch))
         with open(p, "w") as f:
             f.write(text)
